@@ -1489,7 +1489,56 @@ func (c *ctxT) abiCase(paramJSON []byte, g *graph, root string) {
 				map[string]interface{}{"abi": string(paramJSON), "types": string(g.typesJSON().text(nil)), "message": string(msgText),
 					"derived": hex.EncodeToString(h1) + e1, "hand": hex.EncodeToString(h2) + e2})
 		}
+		// theorem C04_abi_document_digest on the implementation: the WHOLE document (EncodeTypedDataV4; the
+		// derived type set has no EIP712Domain entry, the call fills it in on a copy) has the same digest
+		// with the derived and with the hand-written type set, with no domain and with a domain object
+		// holding undeclared keys.  Draws nothing from the PRNG (the Coq case stream stays as it was).
+		for _, dom := range []map[string]interface{}{nil, {"name": "x", "chainId": "1"}} {
+			var m3, m4 map[string]interface{}
+			d3 := json.NewDecoder(bytes.NewReader(msgText))
+			d3.UseNumber()
+			d3.Decode(&m3)
+			d4 := json.NewDecoder(bytes.NewReader(msgText))
+			d4.UseNumber()
+			d4.Decode(&m4)
+			g1, f1 := safeDocDigest(copyTypeSet(ts), primary, dom, m3)
+			g2, f2 := safeDocDigest(copyTypeSet(hand), root, dom, m4)
+			c.st.Evaluations++
+			if f1 != f2 || !bytes.Equal(g1, g2) || (e1 == "" && f1 != "") {
+				c.fail("EIP-712 digest of the document under the ABI-derived type set differs from the hand-written type set (or is refused)",
+					map[string]interface{}{"abi": string(paramJSON), "types": string(g.typesJSON().text(nil)), "message": string(msgText),
+						"derived": hex.EncodeToString(g1) + f1, "hand": hex.EncodeToString(g2) + f2})
+			}
+		}
 	}
+}
+
+func copyTypeSet(ts eip712.TypeSet) eip712.TypeSet {
+	out := eip712.TypeSet{}
+	for k, v := range ts {
+		out[k] = v
+	}
+	return out
+}
+
+func safeDocDigest(ts eip712.TypeSet, primary string, dom, msg map[string]interface{}) (h []byte, e string) {
+	defer func() {
+		if x := recover(); x != nil {
+			e = "PANIC"
+		}
+	}()
+	var d map[string]interface{}
+	if dom != nil {
+		d = map[string]interface{}{}
+		for k, v := range dom {
+			d[k] = v
+		}
+	}
+	b, err := eip712.EncodeTypedDataV4(context.Background(), &eip712.TypedData{Types: ts, PrimaryType: primary, Domain: d, Message: msg})
+	if err != nil {
+		return nil, "error"
+	}
+	return b, ""
 }
 
 func safeHashStruct(name string, v interface{}, ts eip712.TypeSet) (h []byte, e string) {
